@@ -99,8 +99,9 @@ CLAIMS = {
         note=ASSUME + "Not decided: Token::literals/components pipelines; `never sometimes` is C06's clause.",
         ref="4 C12"),
     "C06": dict(
-        technique="static analysis: THIR case-table evaluation of the three check functions against a reference decision table + loop-carried-dependence rule + evaluation of the traversal on abstract trees",
-        text="Decides ~1600 decision cells of check_branch / check_alternation / check_repetition (terminal shapes x "
+        technique="static analysis: rule checker verdict (THIR evaluation on whole trees) vs. the documented rules computed independently by expansion, on an expression catalogue; THIR case-table evaluation of the three check functions against a reference decision table + loop-carried-dependence rule + evaluation of the traversal on abstract trees",
+        text="On ~20 000 catalogue expressions the rule functions accept exactly the expressions that respect the documented rules (adjacent boundaries / zero-or-more wildcards under every choice of branches and one or two passes of repetition bodies, sole tree / separator / wildcard bodies, rooting branches), both directions (catalogue shapes only). "
+             "Decides ~1600 decision cells of check_branch / check_alternation / check_repetition (terminal shapes x "
              "neighbour predicates x bound shapes) against a reference written from the documented rules; context-freedom "
              "twice: no loop-assigned variable reaches a check argument, and on a catalogue of abstract trees every branch "
              "body is checked exactly once with exactly its own nearest neighbours; Starting/Ending selection; boundary "
